@@ -576,10 +576,17 @@ func (w *run) settle() {
 	if w.sc.Net.StallPct > 0 {
 		step += time.Duration(w.sc.Net.StallNs)
 	}
-	for i := 0; i < 200 && quiet < 6; i++ {
+	for i := 0; i < 400 && quiet < 6; i++ {
 		synctest.Wait()
 		d := w.net.InFlightDelay()
-		if d <= 0 {
+		// a goroutine inside a sleep injected by the runtime's spin guard is
+		// runnable work that was charged virtual time (up to seconds when a
+		// retry loop spins): wait it out
+		if n, left := w.e.SpinSleepers(); n > 0 {
+			w.e.Probe("settle_waited_for_spin_guard")
+			d = max(d, left)
+			quiet = 0
+		} else if d <= 0 {
 			quiet++
 		} else {
 			quiet = 0
